@@ -25,9 +25,9 @@ CHECKS = {
              "the compiler does (checked by C08/C16); a marker before the first component is not expressible in the crate (F16-2).",
         design="6 (C03)"),
     "C04": dict(
-        technique='Coq proof (reader totality: no Panic outcome, no success beyond the declared length, for every well-formed type outside two listed classes) + differential correspondence on random and mutated inputs under memory/time limits',
+        technique='Coq proof (UPER, DER and protobuf reader totality: no Panic outcome incl. fuel exhaustion, no success beyond the declared length / window, for every type outside the listed classes) + differential correspondence on random and mutated inputs under memory/time limits',
         text='C04_uper_total: for every mode, well-formed type outside Known_C04 and source in the invariant, read_ty never reaches a Panic outcome (indexing, unchecked arithmetic per profile, allocation, unwrap, debug assertion are explicit Panic outcomes in the model) and a successful read ends within the declared length; C04_remaining_callable, C04_pos_le_len_preserved for every primitive, C04_entry_total, C04_der_total (DER readers), PER primitive no-panic theorems, refutation witnesses for the listed classes. Tied to /repo by differential execution on random bytes and mutated valid encodings for 80 zoo types (UPER), the DER primitives and the protobuf zoo, the child running under RLIMIT_AS and a time limit.',
-        note="Partial only in that wall-clock hang and real allocation are bounded as requested work in the model and observed by the tie, and that the protobuf reader's totality is tie-only; known findings F04-1..3. Trusted: Coq kernel, extraction + driver, harness with catch_unwind, process supervision.",
+        note="Partial only in that wall-clock hang and real allocation are bounded as requested work in the model and observed by the tie, and that the protobuf reader's theorems (C04_proto_total for every byte list and every type without a list of lists, C04_proto_no_overread, C04_proto_primitives_total) exclude a bare top-level SEQUENCE OF, which no generated type is; known findings F04-1..3. Trusted: Coq kernel, extraction + driver, harness with catch_unwind, process supervision.",
         design="6 (C04)"),
     "C05": dict(
         technique='Coq proof (C05_forward / C05_backward / sentinel corollaries over an `extends` relation on types) + differential correspondence (write under A, read under B, sentinel after the message)',
